@@ -1,5 +1,7 @@
 """C03 — the parsed-query cache never changes what a query means."""
-from ..cfg import Body, name_matches
+from ..cfg import Body
+from ..cfg import name_matches
+from .. import orderdom as od
 from ..report import where
 from .. import grammar, consts
 from ..facts import REPO
@@ -108,6 +110,15 @@ def run(ctx, F, cg):
                 continue
             norm = [x for x in calls if x.path in F.fns]
             okk = True
+            # the key is not edited in place between the normaliser and the cache operation
+            if c.args[1][0] != "k":
+                keyl = od.chain_locals(b, c.args[1])
+                mrefs = {pl[0]: line for i, j, pl, rv, line, exp in b.stmts() if rv[0] == "ref" and rv[1] == 1 and rv[2][0] in keyl and not pl[1]}
+                edits = [cc for cc in b.calls() if any(a_[0] != "k" and a_[1][0] in mrefs for a_ in cc.args)]
+                if edits:
+                    okk = False
+                    ctx.violation("R03a", inst + "|key-edited-in-place|" + edits[0].path.rsplit("::", 1)[-1], where(r, edits[0].line),
+                                  "the cache key is edited in place by %s after it was derived from the query: two different query strings can end up under one key" % ", ".join(sorted({e.path.rsplit("::", 1)[-1] for e in edits})))
             for n in norm:
                 # the normaliser must be applied to the query parameter
                 aog = b.origins(n.args[0][1][0], through_calls=id_through) if n.args and n.args[0][0] != "k" else []
